@@ -69,3 +69,14 @@ var ioHostPackages = map[string]string{
 var ioUngatedPrimitives = map[string]string{
 	"lib/iolib.popen": "io.popen spawns a process by definition; it must never be declared iosafe (R-IOSAFE checks that)",
 }
+
+// divZeroTable: integer divisions whose divisor is non-zero for a reason the
+// analysis cannot see; keyed by function.
+var divZeroTable = map[string]string{}
+
+// nonZeroFields: struct fields that never hold zero, with the reason (all
+// stores are checked by R-DIVZERO to be non-zero constants or values guarded by
+// the named range checker).
+var nonZeroFields = map[string]string{
+	"lib/stringlib.packFormatReader.maxAlignment": "initialised to the constant defaultMaxAlignement and otherwise only assigned optSize after smallOptSize() accepted it (1..16)",
+}
